@@ -38,6 +38,14 @@ fn main() {
         ("authentic (200,1)", signed(&me, id, ts(200, 1)), true),
         ("forged: signed by other key, claims my addresses (900,0)", signed(&other, id, ts(900, 0)), false),
         ("trusted, matching id (150,9)", trusted(id, ts(150, 9)), true),
+        ("tampered: authentic record (960,0) with an unsigned address prepended, signature kept", {
+            let mut u = UnsignedTransportInfo::new();
+            u.add_addr(TransportAddress::from_iroh(id, None, []));
+            u.timestamp = ts(960, 0);
+            let mut a = u.sign(&me).unwrap();
+            a.addresses.insert(0, TransportAddress::from_iroh(other.verifying_key(), None, []));
+            a.into()
+        }, false),
         ("trusted, endpoint id of another node (950,0)", trusted(other.verifying_key(), ts(950, 0)), false),
     ];
     let mut n = 0u64;
@@ -66,6 +74,6 @@ fn main() {
         }
     }
     println!("{}", json!({"summary": true, "evaluations": n, "distinct_nontrivial": n, "exhaustive": true,
-        "rule": "all 720 arrival orders of 6 records (3 authentic with timestamps (100,3),(200,0),(200,1); forged signature; trusted matching; trusted mismatching), checked after every update; every step is non-trivial (a record is offered)",
-        "bound": "6 records, all permutations", "samples": [{"order": ["authentic (200,0)", "authentic (100,3)"], "expected_stored": "200/0"}], "violating_classes": reported}));
+        "rule": "all 5040 arrival orders of 7 records (3 authentic with timestamps (100,3),(200,0),(200,1); forged signature; trusted matching; trusted mismatching), checked after every update; every step is non-trivial (a record is offered)",
+        "bound": "7 records, all permutations", "samples": [{"order": ["authentic (200,0)", "authentic (100,3)"], "expected_stored": "200/0"}], "violating_classes": reported}));
 }
